@@ -41,6 +41,16 @@ type Type struct {
 
 var types []*Type
 
+type constCheck struct {
+	name string
+	ok   func() bool
+}
+
+var consts []constCheck
+
+// RegisterConst records a check that a generated constant equals its IDL literal.
+func RegisterConst(name string, ok func() bool) { consts = append(consts, constCheck{name, ok}) }
+
 // RegisterType is called from the init functions of the emitted adapters.
 func RegisterType(t *Type) { types = append(types, t) }
 
@@ -117,6 +127,9 @@ func AnyBytes(l int) []byte {
 			return nil
 		}
 		return []byte{}
+	}
+	if StrLen > 0 {
+		return longBytes()
 	}
 	if ConcreteLeaves {
 		return []byte("ABCDEFGH"[:n])
@@ -487,7 +500,24 @@ func VerifF64() float64 {
 	return verifF64()
 }
 func VerifChoice(n int) int { return verifChoice(n) }
+// StrLen, when > 0, makes every string and binary leaf that long (boundary
+// lengths of the writers' internal buffers), pattern content with a symbolic
+// first and last byte.
+var StrLen int
+
+func longBytes() []byte {
+	b := make([]byte, StrLen)
+	for i := range b {
+		b[i] = byte('a' + i%23)
+	}
+	b[0], b[StrLen-1] = verifByte(), verifByte()
+	return b
+}
+
 func VerifString(n int) string {
+	if StrLen > 0 && n > 0 {
+		return string(longBytes())
+	}
 	if ConcreteLeaves {
 		return "abcdefgh"[:n]
 	}
@@ -582,4 +612,17 @@ func CloneFresh(n *Node) *Node {
 		}
 	}
 	return c
+}
+
+// ContainerSize picks the number of elements of a container: the bound K
+// (parameter "k", default 1) when sizes are fixed, else any size 0..K.
+func ContainerSize(free bool) int {
+	k := verifParam("k")
+	if k == 0 {
+		k = 1
+	}
+	if free {
+		return verifChoice(k + 1)
+	}
+	return k
 }
